@@ -120,7 +120,7 @@ def _universe(n, seed=0, chunks=None):
 
 # ------------------------------------------------------------------ (a) task orders
 A_HARNESSES = []
-for _op in ("asnumpy", "average", "apply", "average_split"):
+for _op in ("asnumpy", "average", "apply", "apply-inplace", "average_split"):
     for _n in (2, 3, 4):
         A_HARNESSES.append({"op": _op, "model": "-", "n": _n})
 for _model in ("ZNCC", "PCC", "FSC"):
@@ -138,6 +138,16 @@ A_HARNESSES.append({"op": "average-chunked", "model": "-", "n": 3})
 # the simulated loader: projections with noise, back-projected per molecule (its noise must be a function of the molecule, not of the run)
 A_HARNESSES.append({"op": "mock.asnumpy", "model": "-", "n": 1})
 A_HARNESSES.append({"op": "classify", "model": "-", "n": 4})
+
+
+def _centred_max(img):
+    img -= img.mean()
+    return float(img.max())
+
+
+def _doubled_sum(img):
+    img *= 2.0
+    return float(img.sum())
 
 
 def _a_body(h):
@@ -158,6 +168,9 @@ def _a_body(h):
             return np.asarray(ld.average())
         if op == "apply":
             return ld.apply([np.mean, np.max], schema=["m", "x"]).to_numpy()
+        if op == "apply-inplace":
+            # user functions that work in place on what they are given (centring, scaling): each must see its own sub-volume
+            return ld.apply([_centred_max, _doubled_sum, np.mean], schema=["cm", "ds", "m"]).to_numpy()
         if op == "average_split":
             return np.asarray(ld.average_split(n_set=2, seed=1))
         if op == "align":
